@@ -169,6 +169,36 @@ def op_member_no_ft(cfg, path, rnd):
     get(cfg, path).append({'noft': {}})
 
 
+def op_member_empty(cfg, path, rnd):
+    """an empty member node; with field type aliases present the members are normalised before any schema sees them"""
+    ms = get(cfg, path)
+    ms.insert(rnd.randint(0, len(ms)), {})
+    tt = cfg['trace']['type']
+    if rnd.random() < 0.7:
+        tt.setdefault('$field-type-aliases', {}).setdefault('zz_alias', {'class': 'uint', 'size': 8})
+
+
+def op_member_scalar(cfg, path, rnd):
+    ms = get(cfg, path)
+    ms.insert(rnd.randint(0, len(ms)), rnd.choice(['junk', 3, None, True]))
+    tt = cfg['trace']['type']
+    if rnd.random() < 0.7:
+        tt.setdefault('$field-type-aliases', {}).setdefault('zz_alias', {'class': 'uint', 'size': 8})
+
+
+def op_member_named_like_length_member(cfg, path, rnd):
+    """a member bearing the name of the length member barectf generates for a dynamic array member"""
+    ms = get(cfg, path)
+    dyn = [list(m.keys())[0] for m in ms if isinstance(m, dict) and m and
+           isinstance(list(m.values())[0], dict) and isinstance(list(m.values())[0].get('field-type'), dict) and
+           list(m.values())[0]['field-type'].get('class') in ('dynamic-array',)]
+    if not dyn:
+        ms.append({'dynq': {'field-type': {'class': 'dynamic-array', 'element-field-type': {'class': 'uint', 'size': 8}}}})
+        dyn = ['dynq']
+    n = rnd.choice(dyn)
+    ms.insert(rnd.choice([0, len(ms)]), {f'__{n}_len': {'field-type': {'class': 'uint', 'size': rnd.choice([8, 16, 32])}}})
+
+
 def op_extra_reserved(cfg, path, rnd):
     get(cfg, path).append({rnd.choice(['packet_size', 'content_size', 'timestamp_begin', 'timestamp_end', 'events_discarded',
                                        'packet_seq_num']): {'field-type': {'class': 'uint', 'size': 8}}})
@@ -385,6 +415,9 @@ OPS = [
     ('member-nested-structure', ['members'], None, op_member_nested_struct),
     ('member-two-keys', ['members'], None, op_member_two_keys),
     ('member-without-field-type', ['members'], None, op_member_no_ft),
+    ('member-empty-node', ['members'], None, op_member_empty),
+    ('member-not-a-mapping', ['members'], None, op_member_scalar),
+    ('member-named-like-generated-length-member', ['members'], None, op_member_named_like_length_member),
     ('extra-member-reserved-name', ['members'], lambda cfg, path: 'extra-members' in path[-1], op_extra_reserved),
     ('unknown-alias', ANY_FT, None, op_unknown_alias),
     ('alias-cycle', ANY_FT, None, op_self_alias),
